@@ -292,6 +292,9 @@ class Eval:
                     raise Unclassified("is_tracked read on a value that is not an operand: %s" % show(recv["e"])[:80])
                 return Unknown("other flag")
             return Unknown("cell get")
+        if cal in ("core::ops::deref::Deref::deref", "core::ops::deref::DerefMut::deref_mut", "core::borrow::Borrow::borrow",
+                   "core::convert::AsRef::as_ref", "alloc::vec::Vec::<T, A>::as_slice") and len(args) == 1:
+            return self.ev(args[0], env)
         # --- Option adaptors
         if cal.startswith("core::option::Option::<"):
             m = cal.split("::")[-1]
@@ -359,6 +362,11 @@ class Eval:
             if isinstance(v, Vec):
                 return v
             return Unknown("iterator")
+        if cal == "core::iter::traits::iterator::Iterator::rev" and len(args) == 1:
+            v = self.force(self.ev(args[0], env))
+            if isinstance(v, Vec):
+                return Vec(list(reversed(v.items)))
+            return Unknown("rev")
         if cal in ("core::iter::traits::iterator::Iterator::any", "core::iter::traits::iterator::Iterator::all") and len(args) == 2:
             v = self.force(self.ev(args[0], env))
             if not isinstance(v, Vec):
@@ -446,6 +454,10 @@ class Eval:
             b = self.facts.body(c["resolved"])
             if b is not None and b.get("thir") and self.depth < 3:
                 return self.inline(b, [self.ev(a, env) for a in args])
+        if e.get("ty") == ARRAY and getattr(self, "primitive", False) and cal in (
+                "core::ops::function::Fn::call", "core::ops::function::FnMut::call_mut", "core::ops::function::FnOnce::call_once"):
+            # the caller-supplied forward closure of an attach primitive: whatever it returns, the primitive has not attached anything to it
+            return Arr(False, [])
         if e.get("ty") == ARRAY:
             # foreign call returning an Array: not modelled
             return Unknown("array-returning call %s" % cal)
@@ -540,20 +552,42 @@ def operand_params(facts, b):
             out.append((name, "opt", p))
         elif ty.startswith("(&" + ARRAY):
             out.append((name, "tuple", p))
+        elif ty in ("&[&%s]" % ARRAY, "alloc::vec::Vec<&%s>" % ARRAY, "&[%s]" % ARRAY, "alloc::vec::Vec<%s>" % ARRAY, "&alloc::vec::Vec<&%s>" % ARRAY):
+            out.append((name, "slice", p))
         elif ARRAY in ty and "dyn" not in ty and "Fn" not in ty:
             out.append((name, "other:" + ty, p))
     return out
 
 
-def evaluate_constructor(facts, b, max_vars=10):
+SLICE_LEN = 2       # operand slices of unknown length are modelled by two elements (enough to tell any / all / first / last apart)
+
+
+def derivative_params(facts, b):
+    """names of parameters of type Option<derivative closure>"""
+    out = []
+    for i, p in enumerate(facts.params(b)):
+        if p.get("pat") and "core::option::Option<" in p["ty"] and "dyn" in p["ty"] and "Fn(" in p["ty"] and ARRAY in p["ty"]:
+            out.append((p["pat"].get("name", "p%d" % i), p))
+    return out
+
+
+def evaluate_constructor(facts, b, max_vars=10, primitive=False):
     """Enumerate all assignments; returns (rows, variables, problems) where each row is
-    (assignment dict, result Arr|None, error string|None)."""
+    (assignment dict, result Arr|None, error string|None).  With primitive=True operand slices are
+    modelled (SLICE_LEN elements) and an optional derivative parameter gets a presence variable."""
     ops = operand_params(facts, b)
+    derivs = derivative_params(facts, b) if primitive else []
     base_vars = []
     for name, kind, p in ops:
         if kind == "opt":
             base_vars.append(("P", name))
+        if kind == "slice":
+            for i in range(SLICE_LEN):
+                base_vars.append(("T", "%s[%d]" % (name, i)))
+            continue
         base_vars.append(("T", name))
+    for name, p in derivs:
+        base_vars.append(("P", name))
     extra = []
     labels = {}
     while True:
@@ -573,6 +607,7 @@ def evaluate_constructor(facts, b, max_vars=10):
                 continue
             consulted = set()
             ev = Eval(facts, asg, consulted)
+            ev.primitive = primitive
             argvals = []
             for p in facts.params(b):
                 if not p.get("pat"):
@@ -588,8 +623,12 @@ def evaluate_constructor(facts, b, max_vars=10):
                         argvals.append(Opt(asg[("P", name)], Ref(name)))
                     elif kind == "tuple":
                         argvals.append(Tup([Ref(name), Unknown("flag")]))
+                    elif kind == "slice" and primitive:
+                        argvals.append(Vec([Ref("%s[%d]" % (name, i)) for i in range(SLICE_LEN)]))
                     else:
                         argvals.append(Unknown("array-carrying parameter"))
+                elif any(dp is p for _, dp in derivs):
+                    argvals.append(Opt(asg[("P", name)], Unknown("derivative closure")))
                 else:
                     argvals.append(Unknown("param"))
             try:
